@@ -144,6 +144,8 @@ def run(ck):
               f'AssignedMsm::in_circuit_as_public_input encodes {sorted(fa)} but constrain_as_public_input constrains {sorted(fc)}', hirq.fn_loc(ca))
     r3_counting(ck, w)
     r4_canonical(ck, w)
+    from . import c03
+    c03.pi_count_exact(ck, w, 'C08.R3')
 
 
 def r3_counting(ck, w):
